@@ -39,7 +39,7 @@ PROPS["C20"] = {
 
 PROPS["C17"] = {
     "lean": ["OlricModel.Props.C17"],
-    "streams": [("codec", (6, 2500), (40, 20000)), ("kv", (10, 300), (100, 400)), ("cluster", (8, 150), (80, 400))],
+    "streams": [("codec", (6, 2500), (40, 20000)), ("kv", (10, 300), (100, 400)), ("cluster", (8, 150), (80, 400)), ("asyncbuf", (3, 30), (20, 60))],
     "model": True,
     "level_text": "Round-trip theorems for all inputs: decodeRec(encodeRec r) = r for every encodable record (any key/value bytes, any length below the field widths); ParseInt/ParseUint of the decimal text of n is n for every width when in range and a range error otherwise; Put-then-Get returns the stored record in every reachable store state; the two size limits are exact and a refused insert changes nothing; a record moved inside a table arrives unchanged. Tied to internal/resp, entry.Encode/Decode and kvstore by the codec and kv streams (byte-for-byte comparison).",
     "design_ref": "DESIGN.md §6 C17",
@@ -149,7 +149,7 @@ PROPS["C06"] = {
 }
 PROPS["C07"] = {
     "lean": ["OlricModel.Props.C07"],
-    "streams": [("atomics", (12, 60), (150, 200)), ("cluster", (4, 150), (30, 400)), ("failover", (5, 30), (30, 40))],
+    "streams": [("atomics", (12, 60), (150, 200)), ("cluster", (4, 150), (30, 400)), ("failover", (5, 30), (30, 40)), ("rebalance", (5, 3), (24, 5))],
     "model": True,
     "level_text": "Theorems: (A) a micro-step model of n concurrent read-modify-write callers (take the executing member's named mutex, read, write, release), for EVERY schedule of the micro-steps: when all callers execute on one member the writes form a serial execution in which each caller read exactly what the callers before it left, nobody is lost or duplicated (C07_serializable); for counters the final value is the initial value plus the sum of all deltas (C07_no_lost_update), for GetPut the returned values form one chain (C07_getput_chain); the statement is false with callers on two members (witness by decide). (B) in a stable healthy cluster the model's incr / getPut are the abstract counter / register step, acknowledged and mirrored, the expiry kept, and the stored decimal number round-trips so that sequences add up (incr_refines, getPut_refines, parseIntB_intBytes, C07_counter_sums). (C) that every call executes on the partition owner is extracted from the source on every run (facts_tie). Tied to the code by the atomics stream: all entry points, a second caller started inside the first one's read-modify-write window at a yield point of the harness build, and real concurrent races through all members and client kinds.",
     "design_ref": "DESIGN.md §6 C07",
